@@ -73,6 +73,13 @@ func engineCases(g *Gen, n int, taint, hostile bool) []*Case {
 	// the SAME error object reachable through two branches of a multi-cause node (a sentinel shared
 	// by both branches, an error joined with an annotated copy of itself)
 	recs = append(recs, sharedObjectRecipes(g)...)
+	// messages that end with, consist of, or contain the ": " the engine itself puts between layers
+	for _, m := range []string{"ctx: ", ": ", "a: b: ", "x:", " "} {
+		recs = append(recs,
+			g.node("wrap", []string{m}, nil, g.LeafOp("new")),
+			g.node("withmessage", []string{m}, nil, g.node("wrap", []string{"mid"}, nil, g.LeafOp("goerr"))),
+			g.node("wrap", []string{"outer"}, nil, g.node("withmessage", []string{m}, nil, g.LeafOp("new"))))
+	}
 	for _, code := range []int{0, 200, 404, 500} {
 		recs = append(recs, g.node("http", nil, []int{code}, g.LeafOp("new")),
 			g.WrapOp("hint", g.node("http", nil, []int{code}, g.LeafOp("goerr")), 2))
@@ -222,7 +229,7 @@ func annotCases(g *Gen, n int) []*Case {
 
 func annotRecipe(g *Gen) *R {
 	ops := []string{"hint", "hint", "detail", "detail", "issuelink", "telemetry", "tags", "assertion", "wrap", "withstack",
-		"domain", "secondary", "mark", "hop"}
+		"domain", "secondary", "mark", "hop", "uwrap", "fmterrorf", "pkgwithmessage"}
 	hintPool := []string{"h1", "h2", "", "h1", "multi\nline hint", "See: dup", "disk is 100% full",
 		"ends with a newline\n", "\n", "--", "  ", "a\n--\nb"}
 	{
@@ -335,6 +342,21 @@ func pairCases(g *Gen) []*Case {
 			i++
 		}
 	}
+	// every value of the enumerated leaf payloads once: each gRPC status code (1..16; 0 = OK is no
+	// error), bare and under a wrapper
+	for code := 1; code <= 16; code++ {
+		for _, op := range []string{"grpcstatus", "gogostatus"} {
+			leaf := g.node(op, []string{g.word()}, []int{code})
+			rec := leaf
+			if code%2 == 0 {
+				rec = g.WrapOp("hint", g.WrapOp("wrap", leaf, 2), 2)
+			}
+			refs := sentinelRefs(g)
+			refs = append(refs, g.Clone(rec))
+			cases = append(cases, buildCase(fmt.Sprintf("st%d", i), rec, refs, []int{0, 1}))
+			i++
+		}
+	}
 	for _, m := range multiOps {
 		for _, inner := range wrapOps {
 			rec := g.MultiOp(m, []*R{g.WrapOp(inner, g.LeafOp("new"), 2), g.LeafOp("goerr")})
@@ -442,8 +464,18 @@ func propCases(res *Result, prop, tier string, g *Gen, n int, batch int) []*Case
 	if prop == "C08" && batch == 0 {
 		oracleC08NonComparable(res)
 	}
+	if (prop == "C08" || prop == "C02") && batch == 0 {
+		oracleKeyMarker(res, prop)
+	}
+	if (prop == "C10" || prop == "C13" || prop == "C14") && batch == 0 {
+		oracleJoinAliasing(res, prop)
+	}
 	if prop == "C07" && batch == 0 {
 		oracleC07EmptyOverride(res)
+		oracleC07ErrorArgs(res)
+	}
+	if (prop == "C05" || prop == "C13") && batch == 0 {
+		oracleDeepMulti(res, prop)
 	}
 	if prop == "C14" && batch == 0 {
 		oracleC14TypedNil(res)
@@ -452,6 +484,8 @@ func propCases(res *Result, prop, tier string, g *Gen, n int, batch int) []*Case
 	if prop == "C11" && batch == 0 {
 		oracleC11Source(res)
 		oracleC11DeepStacks(res)
+		oracleC11GenericReceivers(res)
+		oracleC11RawBytes(res)
 	}
 	switch prop {
 	case "C19":
@@ -466,6 +500,7 @@ func propCases(res *Result, prop, tier string, g *Gen, n int, batch int) []*Case
 		}
 		if prop == "C12" && batch == 0 {
 			cases = append(cases, safeArgCases(g)...)
+			cases = append(cases, lookalikeCases(g)...)
 		}
 		if prop == "C06" && batch == 0 {
 			cases = append(cases, decodedHostileCases()...)
